@@ -1104,8 +1104,8 @@ func specSregBytesAt(out []byte, off int, enc int) bool {
 //@ calls[mode] (*ng_operand.OperandPegImpl).WithBitMode : arg1 == ctx.BitMode
 //@ calls[ext] calculateModRM : arg1 == ctx.BitMode && arg2 == 6<<3
 //@ ensures[prefix] result1 == nil ==> specPrefixOK(result0, vcResult[bool]("Require66h", 0), vcResult[bool]("Require67h", 0))
-//@ ensures[reg] result1 == nil && vcCalled("registerToPushPopCode") && (specReg16(params.Operands[0]) >= 0 || specReg32(params.Operands[0]) >= 0) ==> len(result0) == specB2I(vcResult[bool]("Require66h", 0))+specB2I(vcResult[bool]("Require67h", 0))+1 && result0[specB2I(vcResult[bool]("Require66h", 0))+specB2I(vcResult[bool]("Require67h", 0))] == 0x50+byte(specRegNum(params.Operands[0]))
-//@ ensures[sreg] result1 == nil && vcCalled("registerToPushPopCode") && specSreg(params.Operands[0]) >= 0 ==> specSregBytesAt(result0, specB2I(vcResult[bool]("Require66h", 0))+specB2I(vcResult[bool]("Require67h", 0)), specSregPushPop(params.Operands[0], false))
+//@ ensures[reg] result1 == nil && !specIsImmCode(vcResult[[]ng_operand.OperandType]("OperandTypes", 0)[0]) && !specIsMemCode(vcResult[[]ng_operand.OperandType]("OperandTypes", 0)[0]) && (specReg16(params.Operands[0]) >= 0 || specReg32(params.Operands[0]) >= 0) ==> len(result0) == specB2I(vcResult[bool]("Require66h", 0))+specB2I(vcResult[bool]("Require67h", 0))+1 && result0[specB2I(vcResult[bool]("Require66h", 0))+specB2I(vcResult[bool]("Require67h", 0))] == 0x50+byte(specRegNum(params.Operands[0]))
+//@ ensures[sreg] result1 == nil && !specIsImmCode(vcResult[[]ng_operand.OperandType]("OperandTypes", 0)[0]) && !specIsMemCode(vcResult[[]ng_operand.OperandType]("OperandTypes", 0)[0]) && specSreg(params.Operands[0]) >= 0 ==> specSregBytesAt(result0, specB2I(vcResult[bool]("Require66h", 0))+specB2I(vcResult[bool]("Require67h", 0)), specSregPushPop(params.Operands[0], false))
 //@ ensures[imm8] result1 == nil && specIsImmCode(vcResult[[]ng_operand.OperandType]("OperandTypes", 0)[0]) && specPushImmOK(ctx.SymTable, params.Operands[0]) && -128 <= specPushImmVal(ctx.SymTable, params.Operands[0]) && specPushImmVal(ctx.SymTable, params.Operands[0]) <= 127 ==> len(result0) == specB2I(vcResult[bool]("Require66h", 0))+specB2I(vcResult[bool]("Require67h", 0))+2 && result0[specB2I(vcResult[bool]("Require66h", 0))+specB2I(vcResult[bool]("Require67h", 0))] == 0x6A && result0[specB2I(vcResult[bool]("Require66h", 0))+specB2I(vcResult[bool]("Require67h", 0))+1] == byte(specPushImmVal(ctx.SymTable, params.Operands[0]))
 //@ ensures[imm16] result1 == nil && specIsImmCode(vcResult[[]ng_operand.OperandType]("OperandTypes", 0)[0]) && specPushImmOK(ctx.SymTable, params.Operands[0]) && !(-128 <= specPushImmVal(ctx.SymTable, params.Operands[0]) && specPushImmVal(ctx.SymTable, params.Operands[0]) <= 127) && ctx.BitMode == cpu.MODE_16BIT ==> len(result0) == specB2I(vcResult[bool]("Require66h", 0))+specB2I(vcResult[bool]("Require67h", 0))+3 && result0[specB2I(vcResult[bool]("Require66h", 0))+specB2I(vcResult[bool]("Require67h", 0))] == 0x68 && result0[specB2I(vcResult[bool]("Require66h", 0))+specB2I(vcResult[bool]("Require67h", 0))+1] == byte(specPushImmVal(ctx.SymTable, params.Operands[0])) && result0[specB2I(vcResult[bool]("Require66h", 0))+specB2I(vcResult[bool]("Require67h", 0))+2] == byte(specPushImmVal(ctx.SymTable, params.Operands[0])>>8)
 //@ ensures[imm32] result1 == nil && specIsImmCode(vcResult[[]ng_operand.OperandType]("OperandTypes", 0)[0]) && specPushImmOK(ctx.SymTable, params.Operands[0]) && !(-128 <= specPushImmVal(ctx.SymTable, params.Operands[0]) && specPushImmVal(ctx.SymTable, params.Operands[0]) <= 127) && ctx.BitMode == cpu.MODE_32BIT ==> len(result0) == specB2I(vcResult[bool]("Require66h", 0))+specB2I(vcResult[bool]("Require67h", 0))+5 && result0[specB2I(vcResult[bool]("Require66h", 0))+specB2I(vcResult[bool]("Require67h", 0))] == 0x68 && result0[specB2I(vcResult[bool]("Require66h", 0))+specB2I(vcResult[bool]("Require67h", 0))+1] == byte(specPushImmVal(ctx.SymTable, params.Operands[0])) && result0[specB2I(vcResult[bool]("Require66h", 0))+specB2I(vcResult[bool]("Require67h", 0))+2] == byte(specPushImmVal(ctx.SymTable, params.Operands[0])>>8) && result0[specB2I(vcResult[bool]("Require66h", 0))+specB2I(vcResult[bool]("Require67h", 0))+3] == byte(specPushImmVal(ctx.SymTable, params.Operands[0])>>16) && result0[specB2I(vcResult[bool]("Require66h", 0))+specB2I(vcResult[bool]("Require67h", 0))+4] == byte(specPushImmVal(ctx.SymTable, params.Operands[0])>>24)
@@ -1120,8 +1120,8 @@ func specSregBytesAt(out []byte, off int, enc int) bool {
 //@ calls[mode] (*ng_operand.OperandPegImpl).WithBitMode : arg1 == ctx.BitMode
 //@ calls[ext] calculateModRM : arg1 == ctx.BitMode && arg2 == 0
 //@ ensures[prefix] result1 == nil ==> specPrefixOK(result0, vcResult[bool]("Require66h", 0), vcResult[bool]("Require67h", 0))
-//@ ensures[reg] result1 == nil && vcCalled("registerToPushPopCode") && (specReg16(params.Operands[0]) >= 0 || specReg32(params.Operands[0]) >= 0) ==> len(result0) == specB2I(vcResult[bool]("Require66h", 0))+specB2I(vcResult[bool]("Require67h", 0))+1 && result0[specB2I(vcResult[bool]("Require66h", 0))+specB2I(vcResult[bool]("Require67h", 0))] == 0x58+byte(specRegNum(params.Operands[0]))
-//@ ensures[sreg] result1 == nil && vcCalled("registerToPushPopCode") && specSreg(params.Operands[0]) >= 0 ==> specSregBytesAt(result0, specB2I(vcResult[bool]("Require66h", 0))+specB2I(vcResult[bool]("Require67h", 0)), specSregPushPop(params.Operands[0], true))
+//@ ensures[reg] result1 == nil && !specIsImmCode(vcResult[[]ng_operand.OperandType]("OperandTypes", 0)[0]) && !specIsMemCode(vcResult[[]ng_operand.OperandType]("OperandTypes", 0)[0]) && (specReg16(params.Operands[0]) >= 0 || specReg32(params.Operands[0]) >= 0) ==> len(result0) == specB2I(vcResult[bool]("Require66h", 0))+specB2I(vcResult[bool]("Require67h", 0))+1 && result0[specB2I(vcResult[bool]("Require66h", 0))+specB2I(vcResult[bool]("Require67h", 0))] == 0x58+byte(specRegNum(params.Operands[0]))
+//@ ensures[sreg] result1 == nil && !specIsImmCode(vcResult[[]ng_operand.OperandType]("OperandTypes", 0)[0]) && !specIsMemCode(vcResult[[]ng_operand.OperandType]("OperandTypes", 0)[0]) && specSreg(params.Operands[0]) >= 0 ==> specSregBytesAt(result0, specB2I(vcResult[bool]("Require66h", 0))+specB2I(vcResult[bool]("Require67h", 0)), specSregPushPop(params.Operands[0], true))
 //@ ensures[imm] specIsImmCode(vcResult[[]ng_operand.OperandType]("OperandTypes", 0)[0]) ==> result1 != nil
 //@ ensures[mem] result1 == nil && specIsMemCode(vcResult[[]ng_operand.OperandType]("OperandTypes", 0)[0]) ==> vcCalled("calculateModRM") && (specAddrFormHandled(vcResult[*ng_operand.MemoryInfo]("GetMemoryInfo", 0), specMode(ctx.BitMode)) ==> len(result0) >= specB2I(vcResult[bool]("Require66h", 0))+specB2I(vcResult[bool]("Require67h", 0))+2 && result0[specB2I(vcResult[bool]("Require66h", 0))+specB2I(vcResult[bool]("Require67h", 0))] == 0x8F && specModRMLayout(result0[specB2I(vcResult[bool]("Require66h", 0))+specB2I(vcResult[bool]("Require67h", 0))+1:], vcResult[byte]("calculateModRM", 0), specHasSIB(specAddrSize(vcResult[*ng_operand.MemoryInfo]("GetMemoryInfo", 0), specMode(ctx.BitMode)), vcResult[byte]("calculateModRM", 0)), vcResult[byte]("calculateModRM", 1), vcResult[[]byte]("calculateModRM", 2)))
 //@ assigns OperandPegImpl.bitMode, OperandType[]
